@@ -45,8 +45,10 @@ META = {
         'plus precedence (always printed in its own parentheses), unary +/- applied to a string (implementation '
         'passes the string through), which error wins when a tree contains several error sources (error 13 is only '
         'demanded where no other error can arise), the error (22 or 2) for an operand missing in the middle of an '
-        'expression, the result type of \\ and MOD with a float operand (integer or widest accepted), blanks inside '
-        'two-character relational operators. Recorded deviations accepted exactly: integer + - * and unary minus '
+        'expression, the result type of \\ and MOD with a float operand (integer or widest accepted), a blank between a '
+        'function name and its parenthesis (no function calls are generated). The spelling of a text is free and never '
+        'changes its tree: blanks between tokens and inside <= >= <> =< => ><, letter case of word operators and variable '
+        'names are drawn at random; the oracle text is always spelled canonically. Recorded deviations accepted exactly: integer + - * and unary minus '
         'yield a single of equal value (D-S2, key int-arith-result-is-single); ^ with a double operand yields a '
         'single unless the session runs with double=True (key pow-double-operand-result-is-single).'),
     'rule': ('case = (minimal-parenthesis source text, variable pool); distinct by that text; non-trivial = the text was '
@@ -61,7 +63,8 @@ META = {
         'thorough': 'same tables as quick (the random volume is sampled, not exhaustive)'},
     'require_counters': {'any': ['exact_value_checked', 'type_mismatch_13_seen', 'missing_operand_22_seen',
                                  'grouping_sensitive_pairs', 'unary_after_binary_texts', 'chained_relational_texts',
-                                 'typing_checked', 'parens_dropped_texts']},
+                                 'typing_checked', 'parens_dropped_texts', 'spelling_variants_agree',
+                                 'inner_blank_relational_texts', 'recased_word_operator_texts']},
     'timeout': {'quick': 900, 'thorough': 10800},
 }
 
@@ -198,9 +201,10 @@ def check_tree(ctx, t, name=None, spacing=True, redundant=True, judge=True):
     back = rx.ref_parse(toks)
     if back != t:
         raise AssertionError('printer/reference parser disagree on %r -> %r' % (t, rx.to_text(toks)))
-    text_min = rx.to_text(toks, rng if spacing else None)
+    spelled = set()
+    text_min = rx.to_text(toks, rng if spacing else None, used=spelled)
     full = rx.print_full(t)
-    text_full = rx.to_text(full, rng if spacing else None)
+    text_full = rx.to_text(full)          # the oracle text is always spelled canonically
     case = {'name': name, 'min': text_min, 'full': text_full, 'pool': ctx.pool_sig.decode('latin-1') if _uses_vars(t) else ''}
     try:
         soft0 = ctx.soft
@@ -225,9 +229,29 @@ def check_tree(ctx, t, name=None, spacing=True, redundant=True, judge=True):
         res.count('unary_after_binary_texts')
     if _has_chained_relational(t):
         res.count('chained_relational_texts')
+    if 'blank-inside-relational-operator' in spelled:
+        res.count('inner_blank_relational_texts')
+    if 'word-operator-letter-case' in spelled:
+        res.count('recased_word_operator_texts')
     case['observed_min'] = repr(ra)
     case['observed_full'] = repr(rb)
     # ---- differential: grouping ------------------------------------------------------------------
+    if ra != rb and spelled:
+        # same token sequence in the canonical spelling: if that agrees with the tree, the SPELLING is what broke it
+        try:
+            rcanon = ctx.evalx(rx.to_text(toks))
+            if rcanon == rb:
+                culprit = 'combination'
+                for feat in sorted(spelled):
+                    if ctx.evalx(rx.to_text(toks, None, force=feat)) != rb:
+                        culprit = feat
+                        break
+                res.violation('spelling:%s' % culprit,
+                              '%r evaluates to %r, the same tokens spelled canonically %r and the tree to %r'
+                              % (text_min, ra, rx.to_text(toks), rb), case)
+                return ra
+        except ctx.harness.Internal:
+            pass
     if ra != rb:
         key, sub = _grouping_key(ctx, t)
         case['smallest_failing_subtree'] = rx.to_text(rx.print_min(sub))
@@ -235,6 +259,13 @@ def check_tree(ctx, t, name=None, spacing=True, redundant=True, judge=True):
                       % (text_min, ra, text_full, rb), case)
         return ra
     if rc is not None and rc != rb:
+        try:
+            if ctx.evalx(rx.to_text(rtoks)) == rb:
+                res.violation('spelling:combination', '%r evaluates to %r, canonically spelled %r and the tree to %r'
+                              % (case['redundant'], rc, rx.to_text(rtoks), rb), case)
+                return ra
+        except ctx.harness.Internal:
+            pass
         res.violation('grouping:superfluous-parentheses-change-result',
                       '%r evaluates to %r, tree %r to %r' % (case['redundant'], rc, text_full, rb), case)
         return ra
@@ -400,6 +431,7 @@ def _typing(ctx):
                 if name[0] == 'type2' and name[1] == '^' and '$' not in name[2:]:
                     check_tree(c2, t, name=list(name) + ['double=True'], spacing=False, redundant=False)
     res.sample({'typing_table': 'every operator x every operand type pair', 'entries': len(list(tg.typing_table()))})
+    _spelling_table(ctx)
     # directed missing-operand texts (seed-independent)
     for text, allowed in DIRECTED_MISSING:
         for via_print in (False, True):
@@ -424,6 +456,68 @@ def _typing(ctx):
             else:
                 res.violation('missing-operand:%s:no-error' % where, '%r gives %r' % (text, got),
                               {'text': text, 'via_print': via_print})
+
+
+def _spelling_table(ctx):
+    """Every operator in every spelling GW-BASIC allows, value from the tree; through evaluate, PRINT and a stored line."""
+    res, box, harness = ctx.res, ctx.box, ctx.harness
+    n = 0
+    for o in rx.BINARY:
+        if o[0].isalpha():
+            forms = [o, o.lower(), o.capitalize(), o[0].lower() + o[1:]]
+        elif len(o) == 2:
+            forms = [o, o[0] + ' ' + o[1], o[0] + '  ' + o[1]]
+        else:
+            forms = [o]
+        for a, b, ty in ((3, 5, '%'), (5, 3, '!'), (4, 4, '#'), ('a', 'b', '$'), ('b', 'b', '$')):
+            if ty == '$' and o not in rx.RELATIONAL and o != '+':
+                continue
+            t = ['B', o, tg.L(a, ty), tg.L(b, ty)]
+            try:
+                want = rx.eval_exact(t)
+            except (rx.Unsafe, rx.TypeMismatch):
+                continue
+            la, lb = t[2][2], t[3][2]
+            for form in forms:
+                for pad in (' ', '', '  '):
+                    if pad == '' and (form[0].isalpha() or form[0] in '<>=' and False):
+                        continue
+                    text = ('%s%s%s%s%s' % (la, pad, form, pad, lb)).encode('latin-1')
+                    kind = ('word-operator-letter-case' if form[0].isalpha() and form != o else
+                            'blank-inside-relational-operator' if ' ' in form else 'blanks-around-operator')
+                    case = {'text': text, 'tree': t}
+                    try:
+                        got = ctx.evalx(text)
+                        out_p = box.ex(b'PRINT ' + text)
+                        out_c = box.ex(b'PRINT ' + rx.to_text(rx.print_full(t)))
+                        out_s = box.run([b'10 PRINT ' + text])
+                    except harness.Internal as e:
+                        res.violation(e.key, str(e), case)
+                        continue
+                    n += 1
+                    res.case(b'spelling|' + text)
+                    ok = got[0] == 'ok' and (got[2] == want if isinstance(want, bytes) else rnum.decode(got[2]) == want)
+                    if not ok:
+                        res.violation('spelling:%s' % kind, '%r evaluates to %r, its operator tree to %r' % (text, got, want), case)
+                    elif out_p != out_c or out_s != out_c:
+                        res.violation('spelling:%s' % kind, 'PRINT %r gives %r directly, %r as a stored line; canonical text gives %r'
+                                      % (text, out_p, out_s, out_c), case)
+                    else:
+                        res.count('spelling_variants_agree')
+    for u, forms in (('NOT', ['NOT', 'not', 'Not', 'nOT']), ('-', ['-', '- ', '-  '])):
+        for form in forms:
+            for pad in (' ', '  '):
+                t = ['U', u, tg.L(6, '%')]
+                text = ('%s%s6' % (form, pad if form[0].isalpha() else '')).encode('latin-1')
+                got = ctx.evalx(text)
+                want = rx.eval_exact(t)
+                res.case(b'spelling|' + text)
+                if not (got[0] == 'ok' and rnum.decode(got[2]) == want):
+                    res.violation('spelling:prefix-operator', '%r evaluates to %r, its tree to %r' % (text, got, want), {'text': text})
+                else:
+                    res.count('spelling_variants_agree')
+    ctx.set_pool(tg.make_pool(ctx.rng))
+    res.sample({'spelling_table': 'every operator x letter case / blanks inside and around', 'variants': n})
 
 
 STRICT_OPS = ('+', '-', '*', '/') + tuple(rx.RELATIONAL)
@@ -569,7 +663,7 @@ def _basic(ctx, spec, pool):
         t = gen.tree()
         toks = rx.print_min(t)
         text_min = rx.to_text(toks, rng)
-        text_full = rx.to_text(rx.print_full(t), rng)
+        text_full = rx.to_text(rx.print_full(t))
         case = {'min': text_min, 'full': text_full, 'pool': ctx.pool_sig.decode('latin-1')}
         try:
             rx_ = ctx.evalx(text_full)
